@@ -30,16 +30,10 @@ pub fn count_spaces_after_last_newline(s: &str, i: usize) -> usize {
         "Position i is not a valid UTF-8 boundary"
     );
 
-    // Find the last newline (`\n`) before position `i`
-    if let Some(pos) = s[..i].rfind('\n') {
-        // Get the substring after the newline and up to position `i`
-        let after_newline = &s[pos + 1..i];
-        // Count the number of consecutive spaces in the substring
-        after_newline.chars().take_while(|&c| c == ' ').count()
-    } else {
-        // If no newline is found, return 0
-        0
-    }
+    // Find the start of the line that contains position `i` (the first line has no newline before it)
+    let line_start = s[..i].rfind('\n').map_or(0, |pos| pos + 1);
+    // Count the number of consecutive spaces at the start of that line
+    s[line_start..i].chars().take_while(|&c| c == ' ').count()
 }
 
 #[cfg(test)]
